@@ -3821,7 +3821,7 @@ def part_c05(ctx):
                                                                          'request': data.decode()})
     attrs_hostile(ctx, 'c05')
     c05_ranges(ctx)
-    ctx.cov['exhaustive'] = 'i8/u8 bounds at top-level, nested and array-member positions: %d values x 5 positions x 3 protocols' % len(rng_vals)
+    ctx.cov['exhaustive_parts'] = 'i8/u8 bounds at top-level, nested and array-member positions: %d values x 5 positions x 3 protocols' % len(rng_vals)
     answers = ctx.model(queries, driver='C01')
     for q, (op, impl, case), mod in zip(queries, expect, answers):
         if impl is None:
